@@ -104,7 +104,7 @@ inst2!(t, dec_lendelim_w, 12, d::lendelim_w);
 inst2!(q, dec_rep_int32_unpacked_w, 12, d::rep_unpacked_w);
 inst2!(q, dec_rep_int32_packed_w, 12, d::rep_packed_w);
 inst2!(q, dec_btree_map_w, 12, d::map_w);
-inst2!(q, dec_btree_map_w_long, 12, d::map_w_long);
+inst2!(t, dec_btree_map_w_long, 12, d::map_w_long);
 macro_rules! rinst {
     ($tier:ident, $name:ident, $unw:expr, $($call:tt)*) => { paste! {
         pproof!{ #[kani::unwind($unw)] fn [<c05_ $tier _ $name>]() { $($call)*() } }
